@@ -4,6 +4,6 @@ use parity_scale_codec::{Compact, Decode, Encode};
 pub enum T {
 	#[codec(skip)] V0 = 255,
 	#[codec(skip)] #[codec(index = 0)] V1,
-	#[codec(skip)] #[codec(index = 2)] V2,
+	#[codec(index = 2)] #[codec(skip)] V2,
 }
 fn main() {}
